@@ -12,7 +12,9 @@ V = sys.version_info[:2]
 
 ALTER_BASE = ("def f(a):\n    'doc'\n    v = 12345\n    return a.attr + v\n"
               "x = 12345\n"
-              "def g(fv, *, kwo=1):\n    def h():\n        return fv\n    return h\n")
+              "def g(fv, *, kwo=1):\n    def h():\n        return fv\n    return h\n"
+              # a documented function WITHOUT parameters: its JSON "type" has a docstring but no "args" key
+              "def k():\n    'kdoc'\n    return 0\n")
 
 
 def _replace_nested(code, fn):
@@ -48,7 +50,7 @@ def build_altered(alter):
             raise Reject("docstring must be str")
 
         def fn(c):
-            return code_replace(c, co_consts=(val,) + c.co_consts[1:]) if is_f(c) else c
+            return code_replace(c, co_consts=(val,) + c.co_consts[1:]) if (is_f(c) or c.co_name == "k") else c
     elif kind == "names":
         def fn(c):
             return code_replace(c, co_names=tuple(val if n == "attr" else n for n in c.co_names)) if is_f(c) else c
